@@ -209,7 +209,7 @@ PROPS["C14"] = {
 _VK_IMPORT = 'import vk "github.com/panjf2000/gnet/v2/internal/vk"'
 
 
-def _vk_redirect(pairs, extra_tail=""):
+def _vk_redirect(pairs, extra_tail="", lenient=False):
     """scratch copy of a repo file with its system calls redirected to the ghost kernel (internal/vk)"""
     def gen(src, out):
         import re
@@ -219,6 +219,8 @@ def _vk_redirect(pairs, extra_tail=""):
             n += s.count(a)
             s = s.replace(a, b)
         if n == 0:
+            if lenient:
+                return False
             raise RuntimeError("no redirection anchor found in " + src)
         # add the vk import right after the package clause
         s = re.sub(r"(?m)^(package \w+)$", r"\1\n\n" + _VK_IMPORT, s, count=1)
@@ -243,6 +245,11 @@ _LOOP_REWRITES = {
          ("b        = (*(*[8]byte)(unsafe.Pointer(&u)))[:]", "b        = []byte{1, 0, 0, 0, 0, 0, 0, 0}")]),
 }
 
+# every other file of the root package: a raw descriptor system call anywhere in it goes to the ghost kernel too (so that
+# a change which adds one, e.g. a close(2) in the reactor, is seen by the descriptor ledger instead of escaping it)
+_LOOP_REWRITE_GLOBS = [(".", _vk_redirect([("unix.Read(", "vk.Read("), ("unix.Write(", "vk.Write("), ("unix.Close(", "vk.Close("),
+                                            ("unix.Recvfrom(", "vk.Recvfrom("), ("unix.Sendto(", "vk.Sendto("), ("unix.Send(", "vk.Send(")], lenient=True))]
+
 _LOOP_EXTRA = [("internal/vk", "harness/vk/vk.go"), ("pkg/netpoll", "harness/netpoll/export.go"),
                ("pkg/buffer/ring", "harness/ring/ring_common.go"), ("pkg/buffer/ring", "harness/ring/ring_export.go"),
                ("pkg/buffer/linkedlist", "harness/linkedlist/list_common.go"), ("pkg/buffer/linkedlist", "harness/linkedlist/list_export.go"),
@@ -250,7 +257,7 @@ _LOOP_EXTRA = [("internal/vk", "harness/vk/vk.go"), ("pkg/netpoll", "harness/net
 
 _LOOP_COMMON = {"pkgdir": ".", "mode": "int", "unwind": 8, "contracts": ["byteslice", "ringbuffer", "net_ipv4", "gnet_env"], "stub_values": GNET_STUB_VALUES,
                 "opaque_calls": GNET_OPAQUE + ["fmt.", "runtime.", "os.RemoveAll", "time."], "skip_pkgs": ["github.com/panjf2000/gnet/v2/pkg/logging"],
-                "extra": _LOOP_EXTRA, "rewrites": _LOOP_REWRITES}
+                "extra": _LOOP_EXTRA, "rewrites": _LOOP_REWRITES, "rewrite_globs": _LOOP_REWRITE_GLOBS}
 
 PROPS["C08"] = {
     "level": "other",
@@ -455,7 +462,7 @@ def _patch_units():
     zone_unit = dict(_LOOP_COMMON, name="loop-zone", files=["harness/gnet/vloop_world.go", "harness/gnet/c12_zone.go"], cfg={"vcfg": {"nodes": 1}})
     us = PROPS["C12"]["units"]
     PROPS["C12"]["units"] = [zone_unit if u == "__LOOP_ZONE__" else u for u in us]
-    PROPS["C17"]["units"].append(dict(zone_unit, name="loop-zone-c17", files=zone_unit["files"] + ["harness/gnet/c17_accept.go"]))
+    PROPS["C17"]["units"].append(dict(zone_unit, name="loop-zone-c17", files=zone_unit["files"] + ["harness/gnet/c14_pick.go", "harness/gnet/c17_accept.go"]))
     def el_enroll(src, out):
         _LOOP_REWRITES["eventloop_unix.go"](src, out)
         t = open(out).read()
